@@ -21,10 +21,20 @@ pub enum Number {
 impl Number {
     pub fn negate(&self) -> Option<Self> {
         use Number::*;
+
+        // toggle the sign instead of stacking minus signs, so `-(-5)` is `5` and not `--5`
+        fn flip_sign(x: &str) -> String {
+            if let Some(positive) = x.strip_prefix('-') {
+                positive.to_owned()
+            } else {
+                "-".to_owned() + x
+            }
+        }
+
         Some(match self {
-            Integer(x) => Integer("-".to_owned() + x),
-            BigInt(x) => Integer("-".to_owned() + x),
-            Float(x) => Float("-".to_owned() + x),
+            Integer(x) => Integer(flip_sign(x)),
+            BigInt(x) => BigInt(flip_sign(x)),
+            Float(x) => Float(flip_sign(x)),
             Byte(_) => return None,
         })
     }
